@@ -24,6 +24,9 @@ RUNS = {
     "C02": {"quick": 480, "thorough": 30000},
     "C03": {"quick": 480, "thorough": 30000},
     "C13": {"quick": 320, "thorough": 8000},
+    "C08": {"quick": 480, "thorough": 20000},
+    "C09": {"quick": 480, "thorough": 30000},
+    "C10": {"quick": 480, "thorough": 30000},
     "C05": {"quick": 480, "thorough": 30000},
     "C06": {"quick": 480, "thorough": 30000},
     "C07": {"quick": 480, "thorough": 30000},
